@@ -141,6 +141,23 @@ def collapseIO (I : IOInst) (ents : List IOEnt) (outer : List Out) : IOResult :=
   { outer := outer.map (reroute I F),
     ents := (F.ents.zipIdx).map fun (e, i) => collapseIOEnt I F i e }
 
+/-! ## automatic names of unnamed instances (`collapse_all`)
+
+`if not inst.name: auto_inst_count += 1; inst.name = f'InstanceAuto{auto_inst_count}'` — the counter
+runs over the whole call, in the order the instances are processed. -/
+
+def autoName (n : Nat) : List Char := "InstanceAuto".toList ++ Nat.toDigits 10 n
+
+/-- Effective instance names for the instances processed in this order, `c` unnamed ones seen before. -/
+def assignAuto : Nat → List (List Char) → List (List Char)
+  | _, [] => []
+  | c, nm :: rest =>
+    if nm.isEmpty then autoName (c + 1) :: assignAuto (c + 1) rest else nm :: assignAuto c rest
+
+/-- The name an entity `ent` of the file gets from the `i`-th processed instance. -/
+def autoFixup (st : Style) (names : List (List Char)) (i : Nat) (ent : List Char) : List Char :=
+  fixupName st ((assignAuto 0 names).getD i []) ent
+
 /-! ## `func_instance_parms` -/
 
 /-- Text before the first space, and the text after it if there is a space. -/
